@@ -32,6 +32,7 @@ type SpecCtx struct {
 	axioms *[]string // non-nil while inside a quantifier
 	depth  int
 	oldAlloc string
+	neg    bool // true when the formula being translated is in assumed (negative) position
 }
 
 type specErr struct{ msg string }
@@ -75,6 +76,44 @@ func (cx *SpecCtx) boolTerm(e Expr) string {
 	return ""
 }
 
+// assumeTerm translates a formula that will be assumed (negative polarity).
+func (cx *SpecCtx) assumeTerm(e Expr) string {
+	n := *cx
+	n.neg = true
+	return n.boolTerm(e)
+}
+
+func (cx *SpecCtx) flip() *SpecCtx {
+	n := *cx
+	n.neg = !cx.neg
+	return &n
+}
+
+// conjuncts translates a formula into its top-level conjuncts (expanding predicates), so that
+// each can be discharged as a separate obligation.
+func (cx *SpecCtx) conjuncts(e Expr) []string {
+	switch x := e.(type) {
+	case *EBinary:
+		if x.Op == "&&" {
+			return append(cx.conjuncts(x.X), cx.conjuncts(x.Y)...)
+		}
+	case *ECall:
+		if cx.spec != nil {
+			if p, ok := cx.lookupPred(x.Fun); ok && len(p.Params) == len(x.Args) && cx.depth < 40 {
+				n := *cx
+				n.vars = map[string]sval{}
+				n.locals = false
+				for i, prm := range p.Params {
+					n.vars[prm.Name] = cx.eval(x.Args[i])
+				}
+				n.depth = cx.depth + 1
+				return n.conjuncts(p.Body)
+			}
+		}
+	}
+	return []string{cx.boolTerm(e)}
+}
+
 func (cx *SpecCtx) intTerm(e Expr) string {
 	v := cx.eval(e)
 	if v.kind == "int" {
@@ -101,6 +140,8 @@ func (cx *SpecCtx) sortOfVal(v sval) string {
 		return "Int"
 	case "intmap":
 		return "(Array Int Int)"
+	case "intset":
+		return "(Array Int Bool)"
 	}
 	if v.typ != nil {
 		return cx.g.sc.sortOf(v.typ)
@@ -216,12 +257,55 @@ func (cx *SpecCtx) lookupLocal(name string) (sval, bool) {
 	}
 	pick := allocs[0]
 	if len(allocs) > 1 && cx.at != nil {
+		// prefer the unique candidate that the enclosing loop modifies (hidden range variables)
+		if l, ok := g.loops[cx.at.Index]; ok {
+			var inLoop []*ssa.Alloc
+			for _, a := range allocs {
+				if l.modified[g.cellOf[a]] {
+					// exclude cells modified only by nested loops headed elsewhere? keep simple
+					inLoop = append(inLoop, a)
+				}
+			}
+			if len(inLoop) == 1 {
+				key := g.cellOf[inLoop[0]]
+				return norm(sval{t: g.get(cx.st, key), typ: g.cellType[key], kind: "val"}), true
+			}
+			if len(inLoop) > 1 && name == "rangeindex" {
+				// the loop's own range index is the one stored in the header block
+				for _, a := range inLoop {
+					for _, in := range cx.at.Instrs {
+						if st, ok := in.(*ssa.Store); ok && st.Addr == ssa.Value(a) {
+							key := g.cellOf[a]
+							return norm(sval{t: g.get(cx.st, key), typ: g.cellType[key], kind: "val"}), true
+						}
+					}
+				}
+			}
+		}
 		// choose by lexical scope at the loop header position
 		var pos = cx.at.Instrs[0].Pos()
 		for _, in := range cx.at.Instrs {
 			if in.Pos().IsValid() {
 				pos = in.Pos()
 				break
+			}
+		}
+		if !pos.IsValid() {
+			// header without positions (range loops): use the earliest position in the loop body
+			if l, ok := g.loops[cx.at.Index]; ok {
+				for _, b := range g.fn.Blocks {
+					if !l.body[b.Index] {
+						continue
+					}
+					for _, in := range b.Instrs {
+						if _, isAlloc := in.(*ssa.Alloc); isAlloc {
+							continue
+						}
+						if in.Pos().IsValid() && (!pos.IsValid() || in.Pos() < pos) {
+							pos = in.Pos()
+						}
+					}
+				}
 			}
 		}
 		best := -1
@@ -301,6 +385,10 @@ func (cx *SpecCtx) eval(e Expr) sval {
 		}
 		cx.fail("unknown identifier %q", x.Name)
 	case *EUnary:
+		if x.Op == "!" {
+			v := cx.flip().eval(x.X)
+			return sval{t: fmt.Sprintf("(not %s)", v.t), kind: "bool"}
+		}
 		v := cx.eval(x.X)
 		switch x.Op {
 		case "!":
@@ -379,7 +467,12 @@ func (cx *SpecCtx) nilOf(v sval) sval {
 func (cx *SpecCtx) evalBinary(x *EBinary) sval {
 	switch x.Op {
 	case "&&", "||", "==>", "<==>":
-		a := cx.boolTerm(x.X)
+		var a string
+		if x.Op == "==>" {
+			a = cx.flip().boolTerm(x.X)
+		} else {
+			a = cx.boolTerm(x.X)
+		}
 		b := cx.boolTerm(x.Y)
 		op := map[string]string{"&&": "and", "||": "or", "==>": "=>", "<==>": "="}[x.Op]
 		return sval{t: fmt.Sprintf("(%s %s %s)", op, a, b), kind: "bool"}
@@ -496,6 +589,8 @@ func (cx *SpecCtx) evalQuant(x *EQuant) sval {
 		n.vars[qv.Name] = sval{t: name, typ: t, kind: kind}
 		_ = ranges
 	}
+	cx.g.sc.Quant++
+	defer func() { cx.g.sc.Quant-- }()
 	body := n.boolTerm(x.Body)
 	pats := ""
 	if len(x.Pats) > 0 {
@@ -510,10 +605,12 @@ func (cx *SpecCtx) evalQuant(x *EQuant) sval {
 		pats = strings.Join(ps, " ")
 	}
 	if len(ax) > 0 {
-		if x.Forall {
-			body = fmt.Sprintf("(=> %s %s)", and(ax...), body)
-		} else {
+		// ax are instances of valid axioms about uninterpreted functions: as hypotheses when the
+		// formula is to be proved, as extra conjuncts when it is assumed
+		if cx.neg {
 			body = and(append(ax, body)...)
+		} else {
+			body = fmt.Sprintf("(=> %s %s)", and(ax...), body)
 		}
 	}
 	// propagate axioms that do not mention bound variables? (none: keep local)
@@ -569,13 +666,13 @@ func (cx *SpecCtx) evalSel(x *ESel) sval {
 	}
 	cur, st, isLoc := cx.structBase(base)
 	// ghost field?
-	if key, gt, isMap, ok := cx.ghostField(st, x.Field); ok {
+	if key, gt, special, ok := cx.ghostField(st, x.Field); ok {
 		if !isLoc {
 			cx.fail("ghost field on struct value")
 		}
 		sel := fmt.Sprintf("(select %s %s)", g.get(cx.st, key), cur)
-		if isMap {
-			return sval{t: sel, kind: "intmap"}
+		if special != "" {
+			return sval{t: sel, kind: special}
 		}
 		return norm(sval{t: sel, typ: gt, kind: kindOfType(gt)})
 	}
@@ -637,7 +734,7 @@ func (cx *SpecCtx) evalSel(x *ESel) sval {
 }
 
 // ghostField resolves a ghost field declared for struct type st.
-func (cx *SpecCtx) ghostField(st types.Type, name string) (key string, gt types.Type, isMap bool, ok bool) {
+func (cx *SpecCtx) ghostField(st types.Type, name string) (key string, gt types.Type, special string, ok bool) {
 	named, isNamed := st.(*types.Named)
 	if !isNamed {
 		return
@@ -646,12 +743,13 @@ func (cx *SpecCtx) ghostField(st types.Type, name string) (key string, gt types.
 		for _, gf := range sf.Ghosts {
 			if named.Obj().Name() == gf.Struct && gf.Name == name && (named.Obj().Pkg() == nil || named.Obj().Pkg().Path() == sf.PkgPath) {
 				key = "H:" + typeName(st) + "." + gf.Name
-				isMap = gf.Type == "intmap"
-				if !isMap {
+				if gf.Type == "intmap" || gf.Type == "intset" {
+					special = gf.Type
+				} else {
 					gt = cx.resolveType(gf.Type)
 				}
-				cx.g.env.regGhostComp(key, gt, isMap)
-				return key, gt, isMap, true
+				cx.g.env.regGhostComp(key, gt, special)
+				return key, gt, special, true
 			}
 		}
 	}
@@ -671,13 +769,17 @@ func (cx *SpecCtx) evalIndex(x *EIndex) sval {
 	if base.kind == "intmap" {
 		return sval{t: fmt.Sprintf("(select %s %s)", base.t, cx.intTerm(x.I)), kind: "int"}
 	}
+	if base.kind == "intset" {
+		return sval{t: fmt.Sprintf("(select %s %s)", base.t, cx.intTerm(x.I)), kind: "bool"}
+	}
 	if base.typ == nil {
 		cx.fail("index on untyped value %s", x.X)
 	}
 	switch u := base.typ.Underlying().(type) {
 	case *types.Slice:
 		idx := cx.intTerm(x.I)
-		pos := fmt.Sprintf("(+ (s-off %s) %s)", base.t, idx)
+		pos, fact := g.sc.sliceIdx(base.t, idx)
+		cx.addAxioms([]string{fact})
 		if _, ok := isStruct(u.Elem()); ok {
 			r, ax := g.sc.elemRef(u.Elem(), fmt.Sprintf("(s-arr %s)", base.t), pos)
 			cx.addAxioms(ax)
@@ -725,9 +827,43 @@ func (cx *SpecCtx) evalCall(x *ECall) sval {
 				return sval{t: fmt.Sprintf("(strlen %s)", v.t), kind: "int"}
 			case *types.Array:
 				return sval{t: fmt.Sprint(v.typ.Underlying().(*types.Array).Len()), kind: "int"}
+			case *types.Map:
+				mt := v.typ.Underlying().(*types.Map)
+				dom, _ := g.sc.mapComps(mt)
+				d := cx.stableTerm("(Array "+g.sc.sortOf(mt.Key())+" Bool)", fmt.Sprintf("(select %s %s)", g.get(cx.st, dom), v.t))
+				t, facts := g.sc.mapLen(g.sc.sortOf(mt.Key()), d)
+				cx.addAxioms(facts)
+				return sval{t: t, kind: "int"}
 			}
 		}
 		cx.fail("len of %s", x.Args[0])
+	case "card":
+		v := arg(0)
+		if v.kind != "intset" {
+			cx.fail("card of non-set")
+		}
+		d := cx.stableTerm("(Array Int Bool)", v.t)
+		t, facts := g.sc.mapLen("Int", d)
+		cx.addAxioms(facts)
+		return sval{t: t, kind: "int"}
+	case "emptyset":
+		d := "((as const (Array Int Bool)) false)"
+		t, _ := g.sc.mapLen("Int", d)
+		cx.addAxioms([]string{fmt.Sprintf("(= %s 0)", t)})
+		return sval{t: d, kind: "intset"}
+	case "setadd", "setdel":
+		sv, e := arg(0), arg(1)
+		if sv.kind != "intset" {
+			cx.fail("%s on non-set", x.Fun)
+		}
+		od := cx.stableTerm("(Array Int Bool)", sv.t)
+		val := "true"
+		if x.Fun == "setdel" {
+			val = "false"
+		}
+		nd := cx.stableTerm("(Array Int Bool)", fmt.Sprintf("(store %s %s %s)", od, e.t, val))
+		cx.addAxioms(g.sc.mapLenStore("Int", od, nd, e.t, x.Fun == "setadd"))
+		return sval{t: nd, kind: "intset"}
 	case "cap":
 		v := arg(0)
 		return sval{t: fmt.Sprintf("(s-cap %s)", v.t), kind: "int"}
@@ -874,6 +1010,15 @@ func (cx *SpecCtx) evalCall(x *ECall) sval {
 	return sval{}
 }
 
+// stableTerm names a ground term with a declared constant (so it can appear in quantifier patterns).
+// Inside quantifiers the term is used as is.
+func (cx *SpecCtx) stableTerm(sort, term string) string {
+	if cx.axioms != nil {
+		return term
+	}
+	return cx.g.defConst("st", sort, term)
+}
+
 func (cx *SpecCtx) lookupPred(name string) (*Pred, bool) {
 	if p, ok := cx.spec.Preds[name]; ok {
 		return p, true
@@ -906,6 +1051,27 @@ func (cx *SpecCtx) locations(e Expr) []location {
 	g := cx.g
 	switch x := e.(type) {
 	case *EStar:
+		// x[*].* : every field (also nested) of every element of a slice of structs
+		if sel, ok := x.X.(*ESel); ok && sel.Field == "*" {
+			if inner, ok := sel.X.(*EStar); ok {
+				base := cx.eval(inner.X)
+				if base.typ != nil {
+					if sl, ok := base.typ.Underlying().(*types.Slice); ok {
+						if _, isS := isStruct(sl.Elem()); isS {
+							arr := fmt.Sprintf("(s-arr %s)", base.t)
+							var comps []string
+							g.sc.leafComps(sl.Elem(), map[string]bool{}, &comps)
+							var out []location
+							for _, c := range comps {
+								out = append(out, location{comp: c, pred: func(r string) string { return fmt.Sprintf("(= (rootref %s) %s)", r, arr) }})
+							}
+							return out
+						}
+					}
+				}
+				cx.fail("modifies %s: [*].* needs a slice of structs", e)
+			}
+		}
 		// x[*]  or  x.*
 		if sel, ok := x.X.(*ESel); ok && sel.Field == "*" {
 			base := cx.eval(sel.X)
@@ -993,6 +1159,17 @@ func (cx *SpecCtx) locations(e Expr) []location {
 			}
 			return []location{{comp: g.sc.cellComp(pt), ref: v.t}}
 		}
+	}
+	if c, ok := e.(*ECall); ok && c.Fun == "any" && len(c.Args) == 1 {
+		// any(T): every object of struct type T (all its leaf fields, including nested structs)
+		t := cx.resolveType(strings.Trim(c.Args[0].String(), "\""))
+		var comps []string
+		g.sc.leafComps(t, map[string]bool{}, &comps)
+		var out []location
+		for _, k := range comps {
+			out = append(out, location{comp: k, pred: func(string) string { return "true" }})
+		}
+		return out
 	}
 	cx.fail("unsupported modifies target %s", e)
 	return nil
